@@ -73,6 +73,9 @@ func (c *flowCtx) path(v ssa.Value) string {
 	}
 	switch x := v.(type) {
 	case *ssa.Parameter:
+		if a, ok := c.w.subParam(x); ok {
+			return c.path(a)
+		}
 		return fmt.Sprintf("P%d", paramIndex(x))
 	case *ssa.FreeVar:
 		return "FV:" + x.Name()
@@ -124,8 +127,16 @@ func (c *flowCtx) path(v ssa.Value) string {
 		}
 		return "&alloc:" + x.Name()
 	case *ssa.Call:
+		if rs, ok := c.w.subCall(x); ok && len(rs) == 1 {
+			return c.path(rs[0])
+		}
 		return c.call(&x.Call)
 	case *ssa.Extract:
+		if call, ok := x.Tuple.(*ssa.Call); ok {
+			if rs, ok := c.w.subCall(call); ok && x.Index < len(rs) {
+				return c.path(rs[x.Index])
+			}
+		}
 		return c.path(x.Tuple) + "#" + fmt.Sprint(x.Index)
 	case *ssa.TypeAssert:
 		s := "assert<" + types.TypeString(x.AssertedType, shortQ) + ">(" + c.path(x.X) + ")"
@@ -416,11 +427,9 @@ func (w *World) argPaths(cc *ssa.CallCommon) []string {
 // calls returns every call instruction (Call, Go, Defer) in fn satisfying ev.
 func (w *World) callsIn(fn *ssa.Function, ev Ev) []ssa.CallInstruction {
 	var out []ssa.CallInstruction
-	for _, b := range fn.Blocks {
-		for _, in := range b.Instrs {
-			if ci, ok := in.(ssa.CallInstruction); ok && ev.M(in) {
-				out = append(out, ci)
-			}
+	for _, in := range w.FGI(fn).ins {
+		if ci, ok := in.(ssa.CallInstruction); ok && ev.M(in) {
+			out = append(out, ci)
 		}
 	}
 	return out
